@@ -59,6 +59,12 @@ impl<'a, T: DDNNFPtr<'a>> IteTable<'a, T> for LruIteTable<T> {
 
 impl<'a, T: DDNNFPtr<'a>> LruIteTable<T> {
     fn new() -> LruIteTable<T> {
+        #[cfg(feature = "verif")]
+        if let Some(bits) = crate::verif::lru_ite_capacity_bits() {
+            return LruIteTable {
+                table: Lru::new(bits),
+            };
+        }
         LruIteTable {
             table: Lru::new(INITIAL_CAPACITY),
         }
